@@ -957,6 +957,39 @@ def corpus(ctx):
     return json.loads(pth.read_text()) if pth.exists() else {}
 
 
+def gen_call(r, geo, cfg, kernel=None):
+    """one reconstruct() call on an existing object: the base configuration with hyper-parameters varied,
+    including the per-call overrides (rotation angle, aberrations)"""
+    kw = rkw(cfg, name=kernel, b=r.choice([None, 1, 2, 3]))
+    if r.random() < 0.5:
+        kw["override_rotation_angle"] = round(geo["rot"] + r.choice([-1, 1]) * r.uniform(0.2, 1.5), 3)
+    if r.random() < 0.4:
+        kw["override_aberration_coefs"] = {"C10": round(r.uniform(-120, 120), 2)}
+    if r.random() < 0.3:
+        kw["upsampling_factor"] = r.choice([1, 2])
+    return kw
+
+
+def oracle_history(ctx, geo, cfg, calls):
+    """"a deterministic function of the stack, the mask and the hyper-parameters ONLY": the k-th call on an
+    object that has already served k-1 other calls equals the same call on a fresh object"""
+    dp, mask, stack, semi = build(geo, aberr=cfg["aberr"])
+    out, worst = [], 0.0
+    for i, kw in enumerate(calls):
+        got = rec(dp, **kw)
+        ref = rec(build(geo, aberr=cfg["aberr"])[0], **kw)
+        scale = max(float(np.abs(ref).max()), scale_floor(geo, mask, stack, semi))
+        k = kw["deconvolution_kernel"]
+        ok, err = close(got, ref, rt_batch(k), scale)
+        worst = max(worst, err if math.isfinite(err) else 0.0)
+        if not ok:
+            out.append(("history-dependence/%s" % k,
+                        "call #%d %r on an object that served %d earlier call(s) %r differs from the same call on a fresh "
+                        "object by %.3g (relative to %.3g)" % (i + 1, kw, i, calls[:i], err, scale), {"call": i}))
+            break
+    return out, worst
+
+
 def run_oracles(ctx: Ctx):
     r = ctx.rng
     worst = {"batch": 0.0, "linear": 0.0, "submask": 0.0, "parallax": 0.0, "intshift": 0.0}
@@ -1042,6 +1075,24 @@ def run_oracles(ctx: Ctx):
         ctx.count(("intshift", json.dumps(geo, sort_keys=True), m), nontrivial=True)
         ctx.dist("parallax/integer-shift")
         report(ctx, found, geo, cfg, "intshift", {"m": m})
+    # --- history independence: several different calls on ONE object vs fresh objects
+    worst["history"] = 0.0
+    for rep in range(ctx.budget(6, 60)):
+        geo = gen_geometry(r, small=True)
+        k = list(KERNELS)[rep % len(KERNELS)]
+        cfg = gen_config(r, k)
+        kerns = [k, r.choice(list(KERNELS)), k]
+        calls = [gen_call(r, geo, cfg, kernel=kk) for kk in kerns]
+        if rep % 2 == 0:
+            # the pattern that exposes a stale per-object cache: no override, an override, no override again
+            calls[0].pop("override_rotation_angle", None)
+            calls[1]["override_rotation_angle"] = round(geo["rot"] + 0.7, 3)
+            calls[2].pop("override_rotation_angle", None)
+        found, err = oracle_history(ctx, geo, cfg, calls)
+        worst["history"] = max(worst["history"], err)
+        ctx.count(("history", json.dumps(geo, sort_keys=True), json.dumps(calls, sort_keys=True)), nontrivial=True, n=len(calls))
+        ctx.dist("history/%s" % k)
+        report(ctx, found, geo, cfg, "history", {"calls": calls})
     ctx.cov["oracle_worst_relative_differences"] = worst
     ctx.log("oracles: worst relative differences %s" % {k: float("%.2g" % v) for k, v in worst.items()})
 
@@ -1116,6 +1167,8 @@ def replay(ctx: Ctx, path):
             found, err = oracle_parallax(ctx, geo, cfg)
         elif which == "intshift":
             found, err = oracle_integer_shift(ctx, geo, cfg, rp["m"])
+        elif which == "history":
+            found, err = oracle_history(ctx, geo, cfg, rp["calls"])
         else:
             print("unknown oracle", which)
             return 0
